@@ -33,13 +33,83 @@ def repro_for(pid, key, case):
     return ""
 
 
+def deep(a):
+    import multiprocessing as mp
+    from . import c17, dec_common as D
+    import checks.C17 as C
+    found = {}
+    fill = ["zeros", "ones"] + ["boundary"] * (a.deep // 2) + ["random"] * a.deep + ["random+p"] * (a.deep // 4)
+    for seed in a.seeds:
+        with mp.get_context("fork").Pool(tlc.NCPU, maxtasksperchild=1) as pool:
+            counts = pool.map(c17.spec_count, D.isa_modes())
+            jobs = []
+            for isa, mode, n, err in counts:
+                step = max(8, -(-n // 12))
+                for lo in range(0, n, step):
+                    jobs.append((isa, mode, lo, min(n, lo + step), fill, seed))
+            outs = pool.map(c17.deep_chunk, jobs, chunksize=1)
+        ninputs = 0
+        for o in outs:
+            ninputs += o["n"]
+            for tr in o["traces"]:
+                line = tr["line"]
+                e = tr["ev"][line - 1]
+                clauses = []
+                if e["k"] == "raised":
+                    clauses.append("Raised")
+                elif e["st"] == "decode" and e["k"] == "instr":
+                    if not (e["mnstr"] == 1 and e["mnlen"] >= 1):
+                        clauses.append("Mnemonic")
+                    if e["type"] not in range(-1, 6):
+                        clauses.append("Type")
+                    if e["len"] < 1:
+                        clauses.append("Length")
+                    if e["opsl"] != 1 or any(k != "exp" for k in e["opk"]):
+                        clauses.append("Operands")
+                for cl in clauses:
+                    k = C.fail_key(tr, line, cl)
+                    if k not in found:
+                        found[k] = (C.describe(tr, line, cl), {"trace": tr, "line": line})
+        print("deep seed %d: %d inputs, %d candidate keys so far" % (seed, ninputs, len(found)))
+        sys.stdout.flush()
+    merge("C17", found, a.write)
+
+
+def merge(pid, found, write):
+    path = os.path.join(tlc.VERIF, "known_findings.d", pid + ".json")
+    old = {"findings": []}
+    if os.path.exists(path):
+        old = json.load(open(path))
+    have = set(f["key"] for f in old["findings"])
+    added = 0
+    for k in sorted(found):
+        what, case = found[k]
+        if k in have:
+            continue
+        added += 1
+        old["findings"].append({"property": pid, "status": "known", "key": k, "what": what[:300],
+                                "repro": repro_for(pid, k, case)})
+        print("NEW", k, "::", what[:200])
+    print("%d keys observed, %d not yet listed" % (len(found), added))
+    if write:
+        old["findings"].sort(key=lambda f: f["key"])
+        with open(path, "w") as f:
+            json.dump(old, f, indent=1)
+        print("written", path)
+
+
 def main():
     ap = argparse.ArgumentParser()
     ap.add_argument("pid")
     ap.add_argument("--seeds", type=int, nargs="+", default=[0])
     ap.add_argument("--tier", default="quick")
     ap.add_argument("--write", action="store_true")
+    ap.add_argument("--deep", type=int, default=0,
+                    help="C17 only: decode+render discovery with N random fillings per spec (no TLC: clauses are "
+                         "mimicked here only to NAME candidate keys; the check itself stays TLC-judged)")
     a = ap.parse_args()
+    if a.deep:
+        return deep(a)
     mod = importlib.import_module("checks." + a.pid)
     found = {}
     for seed in a.seeds:
